@@ -34,6 +34,11 @@ class Unsupported(Exception):
         self.what, self.line = what, line
 
 
+class What(str):
+    """description of a possible exception, optionally carrying the heap at the point where it is raised"""
+    heap: Any = None
+
+
 class ContractError(Exception):
     """The sidecar cannot be bound to the code (renamed parameter, loop gone ...)."""
 
@@ -65,6 +70,7 @@ class State:
         self.path: list[str] = []
         self.ghost_idx: dict[int, str] = {}
         self.loop_entry: Optional["State"] = None  # state on entry to the innermost enclosing loop (for pre_loop(...))
+        self.exc_names: dict[str, str] = {}  # `except X as e`: e -> the exception class caught on this path
 
     def fork(self) -> "State":
         s = State()
@@ -74,6 +80,7 @@ class State:
         s.old = self.old
         s.path = list(self.path)
         s.loop_entry = self.loop_entry
+        s.exc_names = dict(self.exc_names)
         return s
 
     def snapshot(self) -> "State":
@@ -201,6 +208,7 @@ class Contract:
     prelude: list[str] = field(default_factory=list)  # optional prelude axiom groups to include (e.g. "idx_app_rev")
     source_name: str = ""  # qualified name in the source when it differs from the contract's key (e.g. a property setter)
     decorator: str = ""  # pick the definition carrying this decorator (e.g. "logic_gate_tree.setter")
+    external: bool = False  # trusted contract of a function that has no source in the repository: signature = `params` (in order) and `returns`
     is_property: bool = False  # a @property getter: `obj.name` in code and clauses denotes a call of this contract
 
 
@@ -378,6 +386,8 @@ class Engine:
             return v.t
         if ty == INT:
             return v.t != 0
+        if ty == STR:
+            return v.t != self.strlit("").t
         if isinstance(ty, SeqTy):
             return self.pre.seqf(ty, "len")(v.t) != 0
         if isinstance(ty, OptTy):
@@ -950,7 +960,15 @@ class Engine:
             return v
         ks = [self.expr(k, st) for k in n.keys]  # type: ignore[arg-type]
         vs = [self.expr(v, st) for v in n.values]
-        ty = MapTy(ks[0].ty, vs[0].ty)
+        # flow-sensitive narrowing: an Optional value that the path condition shows to be present is stored as the plain value
+        for i, v in enumerate(vs):
+            if isinstance(v.ty, OptTy) and any(o.ty == v.ty.inner for o in vs) and self.entails_qf(st, z3.Not(self.pre.opt_is_none(v.ty, v.t))):
+                vs[i] = V(self.pre.opt_val(v.ty, v.t), v.ty.inner)
+        vty = vs[0].ty
+        for v in vs[1:]:
+            if v.ty != vty:
+                vty = OptTy(vty) if isinstance(v.ty, OptTy) and v.ty.inner == vty else (v.ty if isinstance(vty, OptTy) and False else vty)
+        ty = MapTy(ks[0].ty, vty)
         self.sort(ty)
         m = self.pre.fn[f"empty_{ty.name}"]
         for k, v in zip(ks, vs):
@@ -1364,6 +1382,7 @@ class Engine:
         try:
             gst.env.update(self.bind_target(gen.target, self.seq_idx(q, bv)))
             conds = [self.truthy(self.expr(c, gst)) for c in gen.ifs]
+            gst.pc += conds  # the element expression is evaluated under the filter
             elt = self.expr(n.elt, gst)
             reads = set(self.fields_read)
         except (Unsupported, ContractError, KeyError):
@@ -1820,7 +1839,9 @@ class Engine:
         # 2. exceptional outcomes declared by the callee
         for exc, txt in c.raises.items():
             cond = self.clause(txt, cst)
-            self.pending_raises.append((list(st.pc), cond, exc, f"{c.name} raises {exc}"))
+            w = What(f"{c.name} raises {exc}")
+            w.heap = dict(st.heap)  # a call that raises leaves the state as it was (the declared exceptions are atomic failures)
+            self.pending_raises.append((list(st.pc), cond, exc, w))
             st.pc.append(z3.Not(cond))
         # 3. frame: havoc what the callee may modify
         pre = cst.snapshot()
